@@ -77,7 +77,7 @@ func init() {
 			for j < len(all) && all[j].p == all[i].p {
 				j++
 			}
-			if j-i >= 2 {
+			if j-i >= 2 || (j-i == 1 && (all[i].a&0xFF == 0 || all[i].a&0xFF == 2)) { // mirror groups, plus a sample of unmirrored cells
 				g := make([]uint32, 0, j-i)
 				for k := i; k < j; k++ {
 					g = append(g, all[k].a)
@@ -105,6 +105,48 @@ func init() {
 				cls, idx = 2, int(p-0xE00000)
 			}
 			pick := func() uint32 { return g[r.Intn(len(g))] }
+			if r.Intn(3) == 0 {
+				// directed: another backend, then a 24-bit read ending at the cell, then a byte access to the cell
+				io := uint32(r.Intn(0x40))<<16 | 0x2100 + uint32(r.Intn(0x100))
+				sysRead(s, io)
+				emit(map[string]interface{}{"k": "io", "a": io})
+				a := pick()
+				if a&0xFFFF >= 2 {
+					b3 := a - 2
+					okAll := true
+					for i := uint32(0); i < 3; i++ {
+						if _, err := lorom.BusAddressToPak(b3 + i); err != nil {
+							okAll = false
+						} else if _, ok := sysRead(s, b3+i); !ok {
+							okAll = false
+						}
+					}
+					sysRead(s, io)
+					if okAll {
+						var v uint32
+						if guard(func() { v = s.Bus.EaRead24_wrap(byte(b3>>16), uint16(b3)) }) == "" {
+							emit(map[string]interface{}{"k": "rd24", "a": b3, "v": []int{int(v & 0xFFFF), int(v >> 16)}})
+						} else {
+							emit(map[string]interface{}{"k": "rd24", "a": b3, "v": []int{-1, -1}})
+						}
+					}
+				}
+				if r.Intn(2) == 0 {
+					v := byte(r.Intn(256))
+					if sysWrite(s, a, v) {
+						emit(map[string]interface{}{"k": "wr", "a": a, "v": int(v)})
+					} else {
+						emit(map[string]interface{}{"k": "rd", "a": a, "v": -2}) // a write to a backed address failed loudly
+					}
+				}
+				v, ok := sysRead(s, a)
+				if !ok {
+					v = 0
+					emit(map[string]interface{}{"k": "rd", "a": a, "v": -1}) // a read of a backed address failed loudly
+				} else {
+					emit(map[string]interface{}{"k": "rd", "a": a, "v": int(v)})
+				}
+			}
 			for op := 0; op < 6+r.Intn(8); op++ {
 				switch r.Intn(7) {
 				case 5: // an access to the hardware register area in between (another backend)
@@ -142,6 +184,8 @@ func init() {
 					v, ok := sysRead(s, a)
 					if ok {
 						emit(map[string]interface{}{"k": "rd", "a": a, "v": int(v)})
+					} else {
+						emit(map[string]interface{}{"k": "rd", "a": a, "v": -1}) // was readable when the groups were built
 					}
 				case 2:
 					a, v := pick(), byte(r.Intn(256))
